@@ -8,6 +8,8 @@ def configs(tier):
         ('deep chain + sibling, 4 name slots over {a,b,Foo}', dict(fam_kw=dict(shape='deep', names=('a', 'b', 'Foo')))),
         ('self nested, 3 name slots over {a,b}', dict(fam_kw=dict(shape='self_nested', names=('a', 'b')))),
         ('case variants next to unique names {Foo,foo,x}', dict(fam_kw=dict(shape='two_parents', names=('Foo', 'foo', 'x')))),
+        ('names differing only in the case of their PascalCase form {foobar,foo_bar,x}', dict(fam_kw=dict(shape='two_parents', names=('foobar', 'foo_bar', 'x')))),
+        ('three branches, one nested deeper, {x,y,item}', dict(fam_kw=dict(shape='three_branches', names=('x', 'y', 'item')))),
         ('two documents merged, wide, {a,b,c}', dict(fam_kw=dict(shape='wide', names=('a', 'b', 'c'), docs=2))),
     ]
     if tier == 'quick': return q
